@@ -295,7 +295,10 @@ def wellformed(ast):
 # ----------------------------------------------------------------------------------------
 PIECES = ["foo", ".bar", "\n", "\n.", "'", "\n'", "\\", "\\\\", "-", "`", "´", ".", " ", "baz qux", "\\fB", "\\&",
           "é", "ß", "ǆ", ".PP", ".SH X", "\n.PP\n", "\"", "x", "..", "\n\n", ".\n.", "'\n'", "--opt", "a\\b", "\\e",
-          "\n.IP \\(bu 2\n", "'br", ".EE", "\t", "ﬁ", "\\(aq", "\\n"]
+          "\n.IP \\(bu 2\n", "'br", ".EE", "\t", "ﬁ", "\\(aq", "\\n",
+          # a carriage return is a character like another (a file shown verbatim may have been saved with old Mac line ends): what
+          # follows it is still document text, whatever it starts with
+          "\r.so /etc/passwd", "\r", "\r\n.TH x 1", "\r'"]
 
 
 def gen_text(rng, lo=0, hi=4):
